@@ -8,7 +8,11 @@ RULE = ("fused_binary_flip_op / fused_ternary_flip_op: all (left,right,output) f
         "on variables inside and outside the supports, equal and distinct flip variables, non-canonical operands; plus the unfused "
         "composition flip(out, op(flip(a), flip(b))) through the same API as a second program whose result must be identical. "
         "out-of-range flip variables must panic in model and implementation. relation: canon(impl)=canon(model); fused==unfused arrays. "
-        "non-trivial = non-constant operands, at least one flip present, result >=3 nodes")
+        "non-trivial = non-constant operands, at least one flip present, result >=3 nodes. "
+        "LARGE operands (model side: the proved-equal fast ternary engine, Model/Apply3Fast.v): ftern with flips and one operand a random "
+        "function of 20 variables (>70,000 nodes) in the second / third position (thorough: every position, and fbin with a large operand), "
+        "the others small functions of 2..3 of the same variables; medium ternary triples over 10..11 variables; results above 400 nodes "
+        "are compared as arrays with the (proved canonical) model result; failing-input oracle there: raw evaluation on 3000 random valuations")
 IDT = "t:-01-00-11"  # left projection table: (l, r) -> l, lazy in r... total on total inputs
 
 
@@ -57,6 +61,27 @@ def programs(rng, tier):
             f1, f2, f3, fo = (rand_optvar(rng, nv) for _ in range(4))
             conn3 = tuple(rng.random() < 0.5 for _ in range(8))
             P.add(["ftern", partial_table3(rng, conn3), optvar(f1), optvar(f2), optvar(f3), optvar(fo), bdd_sx(a), bdd_sx(b), bdd_sx(c)])
+    # large operands: the memo table of the ternary loop is keyed by the pointer triple
+    BIG_NV = 20
+    for r in range(1 if tier == "quick" else 3):
+        big = big_random_bdd(rng, BIG_NV)
+        assert len(big) > 70000
+        bs = bdd_sx(big)
+        sm = lambda: bdd_sx(small_fn_tt(rng, BIG_NV)[0])
+        fl = lambda: [optvar(rand_optvar(rng, BIG_NV, 0.3)) for _ in range(4)]
+        c3 = lambda: tuple(rng.random() < 0.5 for _ in range(8))
+        P.add(["ftern", partial_table3(rng, c3())] + fl() + [sm(), bs, sm()])
+        P.add(["ftern", partial_table3(rng, c3())] + fl() + [sm(), sm(), bs])
+        if tier == "thorough":
+            P.add(["ftern", partial_table3(rng, c3())] + fl() + [bs, sm(), sm()])
+            P.add(["ftern", partial_table3(rng, c3())] + fl() + [bs, sm(), bdd_sx(big_random_bdd(rng, BIG_NV))])
+            P.add(["fbin", partial_table(rng, rng.choice(CONNS))] + fl()[:3] + [sm(), bs])
+            P.add(["fbin", partial_table(rng, rng.choice(CONNS))] + fl()[:3] + [bs, sm()])
+    for _ in range(2 if tier == "quick" else 20):
+        mv = rng.choice([10, 11])
+        x, y, z = (bdd_sx(big_random_bdd(rng, mv)) for _ in range(3))
+        P.add(["ftern", partial_table3(rng, tuple(rng.random() < 0.5 for _ in range(8)))] +
+              [optvar(rand_optvar(rng, mv, 0.3)) for _ in range(4)] + [x, y, z])
     # out-of-range flips: must be rejected (panic), nothing else may be
     for _ in range(30):
         nv = rng.choice([1, 2, 3, 5])
@@ -82,6 +107,8 @@ def judge(st, V):
                                           relation="fused array == unfused array (==)"))
         return
     judge_semantic(PID, st, V)
+    if any(is_bdd(x) and len(x) > 3 * 65536 for x in call[1:]):
+        V.count("large-operand(>65536 nodes):" + call[0])
     # non-triviality for this property additionally needs a flip
     k = key_of(call)
     if k in V.nontrivial and call[0] in ("fbin", "ftern"):
